@@ -470,12 +470,50 @@ def _desugar_select(ot, mask, hit, drops, loc):
   ot.replace(hit.start(), op + 1, "match verif_select() {")
 
 
+class ScopeEnd:
+  """R6s: a declared text inserted where a binding goes out of scope.  `decl` is a regex matching the `let` statement that binds a
+  guard named `name`; the text is placed before the closing brace of the block the `let` sits in (the implicit drop of the guard),
+  unless that block drops the binding explicitly (`drop(name)`) or returns/breaks are inside it (then the unit's contracts see no
+  release on those paths, which can only make a proof fail, never pass)."""
+  def __init__(self, decl, name):
+    self.decl = re.compile(decl) if isinstance(decl, str) else decl
+    self.name = name
+    self.pattern = "scope-end of " + name
+
+
 def _apply_extras(ot, drops, where, extra, loc):
   for ex in extra or []:
     rule, old, new = ex[0], ex[1], ex[2]
     want = ex[3] if len(ex) > 3 else None
     cnt = 0
-    if isinstance(old, str):
+    if isinstance(old, ScopeEnd):
+      pos = 0
+      while True:
+        m = old.decl.search(ot.s, pos)
+        if not m:
+          break
+        mask = code_mask(ot.s)
+        d, k, end = 0, m.end(), None
+        while k < len(mask):
+          if mask[k] == "{":
+            d += 1
+          elif mask[k] == "}":
+            if d == 0:
+              end = k
+              break
+            d -= 1
+          k += 1
+        pos = m.end()
+        if end is None:
+          continue
+        # explicit drop directly in this block: nothing to insert
+        blk = mask[m.end():end]
+        if re.search(r"\bdrop\(\s*%s\s*\)" % re.escape(old.name), blk):
+          continue
+        drops.append({"rule": rule, "at": loc(end), "what": "end of the scope of `%s` -> %s" % (old.name, new.strip())})
+        ot.replace(end, end, new)
+        cnt += 1
+    elif isinstance(old, str):
       pos = 0
       while True:
         i = ot.s.find(old, pos)
